@@ -320,6 +320,15 @@ Rewrites(ns) ==
                               Mk("FRAG", 0, "VF", "", Roots.query, <<>>, <<>>, "", ""),
                               [Mk("F", 0, "f", "", "", <<Arg("a", LitVar("zz"))>>, <<>>, "", Roots.query) EXCEPT !.parent = 5] >>)) :
            r \in {"all-variable-usages-are-allowed", "all-variable-uses-defined"}}
+  \* an operation that does not use its variable bears the NAME of a fragment that uses it (operations and fragments have
+  \* separate name spaces); another operation spreads that fragment legitimately
+  \cup {RW("all-variables-used", "operation-named-like-a-fragment-using-the-variable",
+           AppendNodes(ns, << [Mk("OP", 0, "UseOp", "", "", <<>>, <<>>, "query", "") EXCEPT !.vdefs = <<[name |-> "zz", type |-> <<"Int">>, hasDefault |-> FALSE, default |-> NoLit]>>],
+                              [Mk("S", 0, "VU", "", "", <<>>, <<>>, "", Roots.query) EXCEPT !.parent = 1],
+                              [Mk("OP", 0, "VU", "", "", <<>>, <<>>, "query", "") EXCEPT !.vdefs = <<[name |-> "zz", type |-> <<"Int">>, hasDefault |-> FALSE, default |-> NoLit]>>],
+                              [Mk("F", 0, "s", "", "", <<>>, <<>>, "", Roots.query) EXCEPT !.parent = 3],
+                              Mk("FRAG", 0, "VU", "", Roots.query, <<>>, <<>>, "", ""),
+                              [Mk("F", 0, "f", "", "", <<Arg("a", LitVar("zz"))>>, <<>>, "", Roots.query) EXCEPT !.parent = 5] >>))}
   \* the disallowed / undefined usage sits in a fragment reached only through another fragment
   \cup {RW(r, "fragment-spread-by-a-fragment",
            AppendNodes(ns, << [Mk("OP", 0, "DeepOp", "", "", <<>>, <<>>, "query", "") EXCEPT !.vdefs = IF r = "all-variable-uses-defined" THEN <<>> ELSE <<[name |-> "zz", type |-> <<"String">>, hasDefault |-> FALSE, default |-> NoLit]>>],
